@@ -305,6 +305,11 @@ def run_pred(ctx, p):
                 L2 = sm.Plucker.PointDir(P0, -D)
             elif k == 'displaced':
                 L2 = sm.Plucker.PointDir(P0 + np.asarray(p['shift'], float), D)
+            elif k in ('near_parallel_offset', 'near_tilted', 'same_other_point'):
+                # general (non-integer) data: a parallel line a small but clearly resolvable distance away (1e-6 .. 1e-3 of the
+                # data magnitude), a line through the same point tilted by 1e-6 .. 1e-3 rad, and the same line given by another of
+                # its points and a positively rescaled direction (differs by rounding only)
+                L2 = sm.Plucker.PointDir(np.asarray(p['P2'], float), np.asarray(p['D2'], float))
             else:
                 L2 = sm.Plucker.PointDir(P0, D)
             got, gotne = L1 == L2, L1 != L2
@@ -506,6 +511,24 @@ def run(ctx):
                 continue
             p = dict(which=which, P=P, D=D, variant=variant, factor=float(2.0 ** rng.integers(-3, 4)), shift=shift,
                      want=variant in ('same', 'rescaled'))
+            if rng.random() < 0.5:
+                P, D = point(rng), direction(rng)
+                if rng.random() < 0.5:      # far from the origin: where a test on the angle between 6-vectors goes blind
+                    P = gen.unit_axis(rng) * gen.logu(rng, 10, 1e3)
+                du = D / np.linalg.norm(D)
+                n_ = np.cross(du, gen.unit_axis(rng))
+                if np.linalg.norm(n_) < 0.1:
+                    continue
+                n_ /= np.linalg.norm(n_)
+                variant = ['near_parallel_offset', 'near_tilted', 'same_other_point'][rng.integers(3)]
+                eps_ = gen.logu(rng, 1e-7, 1e-4)
+                if variant == 'near_parallel_offset':
+                    P2, D2 = P + n_ * eps_ * max(1.0, float(np.linalg.norm(P))), D * float(rng.uniform(0.5, 2))
+                elif variant == 'near_tilted':
+                    P2, D2 = P, (du * math.cos(eps_) + n_ * math.sin(eps_)) * np.linalg.norm(D) * float(rng.uniform(0.5, 2))
+                else:
+                    P2, D2 = P + du * float(rng.uniform(-3, 3)) * max(1.0, float(np.linalg.norm(P))), D * float(rng.uniform(0.5, 2))
+                p = dict(which=which, P=P, D=D, variant=variant, P2=P2, D2=D2, want=variant == 'same_other_point')
         elif which == 'parallel':
             want = bool(rng.integers(2))
             D = intvec(rng)
